@@ -6,6 +6,7 @@ import (
 	"sort"
 	"strings"
 	"testing"
+	"time"
 
 	age "github.com/craterdog/go-collection-framework/v4/agent"
 	col "github.com/craterdog/go-collection-framework/v4/collection"
@@ -728,6 +729,9 @@ func TestC17(t *testing.T) {
 	core.Rapid(r, core.Check[cursorCase]{Name: "random-walks", Gen: genCursorCase(50, 200, true), Exec: execCursorCase}, r.N(1000, 10000))
 	core.DFS(r, core.Check[snapCase]{Name: "snapshot-small", Gen: genSnapCase(r.N(2, 3), false), Exec: execSnapCase, NoJournal: true}, 0)
 	core.Rapid(r, core.Check[snapCase]{Name: "snapshot-random", Gen: genSnapCase(5, true), Exec: execSnapCase}, r.N(2100, 20000))
+	core.DFS(r, core.Check[separateCase]{Name: "separate-collections", Gen: func(s core.Source) separateCase {
+		return separateCase{Kind: core.Pick(s, snapKinds, "kind"), Workers: []int{2, 8, 32}[s.Choose(3, "workers")]}
+	}, Exec: execSeparateIterators, HangLimit: 180 * time.Second}, 0)
 }
 
 func countFalse(xs []bool) int {
